@@ -398,6 +398,8 @@ def plan(tier, seed):
 	tasks.append(('t_sequential', dict(n=n)))
 	for pi in range(len(REPEATS)):
 		tasks.append(('t_repeated', dict(pi=pi)))
+	for w in (1, 2, 3):
+		tasks.append(('t_overlapping_calls', dict(w=w)))
 	for mi in range(len(CWD_MODES)):
 		tasks.append(('t_cwd_histories', dict(mi=mi, depth=3 if tier == 'quick' else 4)))
 	for mode in ('threads', 'processes', 'executor'):
@@ -481,6 +483,79 @@ def t_repeated(pi, only=None):
 	sh.count('repeated_entry_lists', 1)
 	sh.states, sh.transitions = nstates, ntrans
 	sh.sample(dict(family='repeated', pattern=pat, orders=len(orders)))
+	return sh
+
+
+def t_overlapping_calls(w, only=None):
+	"""Two calls in one process that OVERLAP in time, with different k-mer parameters and different files: call A (thread mode, w workers) is
+	held while it opens its g-th file (a gate inside that file's parse()), call B (every mode) runs to completion in the meantime, then A
+	continues.  Both must return the single-file signatures under their OWN parameters.  Deterministic: the gate decides the overlap."""
+	from gambit.seq import SequenceFile
+	from gambit.sigs.calc import calc_file_signature, calc_file_signatures
+	from gambit.sigs.base import SignatureList
+	sh = Shard()
+	ksA, ksB = fixtures.kspec(11, 'ATGAC'), fixtures.kspec(9, 'ATGA')
+	gate, reached = threading.Event(), threading.Event()
+
+	class GatedFile(SequenceFile):
+		def parse(self, **kw):
+			reached.set()
+			if not gate.wait(TIMEOUT):
+				raise RuntimeError('harness: gate never opened')
+			return super().parse(**kw)
+	with fixtures.workdir('c13o') as d:
+		fa = make_files(os.path.join(d, 'a'), 4)
+		fb = list(reversed(make_files(os.path.join(d, 'b'), 3)))
+		expA = [calc_file_signature(ksA, f) for f in fa]
+		expB = [calc_file_signature(ksB, f) for f in fb]
+		for g in range(len(fa)):
+			for bmode, bw in [(None, 0), ('threads', 1), ('threads', 2), ('processes', 1)]:
+				if only is not None and only != [g, bmode, bw]:
+					continue
+				fixtures.reset_gambit_globals()
+				gate.clear(); reached.clear()
+				files = list(fa)
+				files[g] = GatedFile(fa[g].path, fa[g].format, fa[g].compression)
+				box = {}
+
+				def callA():
+					try:
+						box['res'] = calc_file_signatures(ksA, files, concurrency='threads', max_workers=w)
+					except BaseException as e:
+						box['exc'] = e
+				th = threading.Thread(target=callA, daemon=True)
+				th.start()
+				case = dict(mode='overlapping-calls', workers=w, n=len(fa), order=None, pre_completed=0, fault=None, faultkind=None, gated_file=g, other_call=[bmode, bw])
+				try:
+					if not reached.wait(TIMEOUT):
+						raise HarnessError(f'call A never opened its file {g}: {box.get("exc")!r}')
+					try:
+						resB = calc_file_signatures(ksB, fb, concurrency=bmode, **(dict(max_workers=bw) if bmode else {}))
+						errB = None
+					except BaseException as e:
+						resB, errB = None, e
+				finally:
+					gate.set()
+				th.join(TIMEOUT)
+				if th.is_alive():
+					raise HarnessError('call A did not return after its gate was opened')
+				sh.evals += 1
+				sh.traces += 1
+
+				def good(res, exp, ks):
+					return isinstance(res, SignatureList) and res.kmerspec == ks and len(res) == len(exp) and all(isinstance(a, np.ndarray) and a.dtype == b.dtype and np.array_equal(a, b) for a, b in zip(res, exp))
+				if errB is not None or 'exc' in box:
+					sh.violation('unexpected-exception', case, 'both calls return', repr(errB or box.get('exc')))
+				elif not good(box.get('res'), expA, ksA):
+					sh.violation('overlapping-calls-interfere', dict(case, wrong_call='A'), [e.tolist()[:5] for e in expA], [np.asarray(r).tolist()[:5] for r in box['res']])
+				elif not good(resB, expB, ksB):
+					sh.violation('overlapping-calls-interfere', dict(case, wrong_call='B'), [e.tolist()[:5] for e in expB], [np.asarray(r).tolist()[:5] for r in resB])
+				else:
+					sh.nontrivial += 1
+					sh.count('overlapping_call_pairs')
+		fixtures.reset_gambit_globals()
+	sh.states, sh.transitions = 1, sh.evals
+	sh.sample(dict(family='overlapping-calls', workers=w))
 	return sh
 
 
@@ -797,6 +872,8 @@ def t_pool_bodies(ki, bound):
 			def __init__(self, *a, **kw):
 				super().__init__(*a, **kw)
 				self.captured = []
+				# a pool runs its initializer in every worker thread before the first task: every interleaved body is a worker of its own here
+				self.init = (kw.get('initializer') or (a[2] if len(a) > 2 else None), kw.get('initargs') or (a[3] if len(a) > 3 else ()))
 
 			def submit(self, fn, *a, **kw):
 				fut = Future()
@@ -842,7 +919,13 @@ def t_pool_bodies(ki, bound):
 						fut.set_result(r[1])
 					else:
 						fut.set_exception(RuntimeError(r[1]))
-				il = sched.LineInterleaver([lambda c=c: c[0](*c[1], **c[2]) for c in cap], lambda fn: os.path.realpath(fn).startswith(src), max_active=w, on_done=on_done)
+				init = instances[0].init
+
+				def body(c):
+					if init[0] is not None:
+						init[0](*init[1])
+					return c[0](*c[1], **c[2])
+				il = sched.LineInterleaver([lambda c=c: body(c) for c in cap], lambda fn: os.path.realpath(fn).startswith(src), max_active=w, on_done=on_done)
 				trace, results = il.run(prefix)
 				th.join(TIMEOUT)
 				if th.is_alive():
@@ -899,6 +982,8 @@ def replay(case, kind=None):
 		return [v for v in vs if v['case'].get('history') == case['history'] and v['case'].get('k') == case.get('k')][:1]
 	if case['mode'] == 'bodies':
 		return [v for v in t_bodies(case['pair'], 2).violations if v['case'].get('schedule') == case['schedule']][:1] or t_bodies(case['pair'], 2).violations[:1] and []
+	if case['mode'] == 'overlapping-calls':
+		return t_overlapping_calls(case['workers'], only=[case['gated_file'], case['other_call'][0], case['other_call'][1]]).violations[:1]
 	if case['mode'] == 'cwd-history':
 		mi = CWD_MODES.index((case['concurrency'], case['workers']))
 		return t_cwd_histories(mi, len(case['history']), only=list(case['history'])).violations[:1]
